@@ -133,6 +133,11 @@ func (c *Conversation) processSMP(in tlv) (out tlv, complete bool, err error) {
 			return
 		}
 		if out, err = c.processSMP3(mpis); err != nil {
+			if err == smpFailureError {
+				// The run is over: forget its state and secret so
+				// that the next run starts afresh.
+				c.resetSMP()
+			}
 			return
 		}
 		c.smp.state = smpState1
@@ -145,6 +150,11 @@ func (c *Conversation) processSMP(in tlv) (out tlv, complete bool, err error) {
 			return
 		}
 		if err = c.processSMP4(mpis); err != nil {
+			if err == smpFailureError {
+				// The run is over: forget its state and secret so
+				// that the next run starts afresh.
+				c.resetSMP()
+			}
 			out = c.generateSMPAbort()
 			return
 		}
